@@ -114,7 +114,8 @@ BOUNDS = {
 EXCLUDED = ("deg_axis", "arg_empty", "cum_empty", "minmax_empty_nd", "bincount_minlength_too_small")
 
 # (tri_empty_first_chunk, coarsen_empty_axis_nd, rechunk_balance_zero_median and negstep_slice_after_empty_chunk were repaired in /repo and are no longer listed)
-REPAIRED_REGIONS = {"tri_empty_first_chunk", "coarsen_empty_axis_nd", "rechunk_balance_zero_median", "negstep_slice_after_empty_chunk"}
+REPAIRED_REGIONS = {"tri_empty_first_chunk", "coarsen_empty_axis_nd", "rechunk_balance_zero_median", "negstep_slice_after_empty_chunk",
+                    "swv_unit_window_empty_chunk", "swv_empty_axis", "repeat_empty_chunk"}
 OPEN_REGIONS = {
     "swv_unit_window_empty_chunk":
         "sliding_window_view with a window of length 1 along an axis that has a zero-size chunk: the lazy array is declared (input chunks + a trailing "
